@@ -361,7 +361,7 @@ func (p *Parser) parseItem() (secs2.Item, error) {
 }
 
 func (p *Parser) parseList(size int) (secs2.Item, error) {
-	childItems := make([]secs2.Item, 0, size)
+	childItems := make([]secs2.Item, 0, p.capHint(size))
 
 	for {
 		switch ch := p.peekNonSpaceRune(); ch {
@@ -419,7 +419,7 @@ func (p *Parser) parseASCIIStrict(size int) (secs2.Item, error) {
 	isNumStr := false
 	isEscapedCh := false
 	var sb strings.Builder
-	sb.Grow(size)
+	sb.Grow(p.capHint(size))
 
 	for i, ch := range p.data {
 		switch {
@@ -673,7 +673,7 @@ func (p *Parser) parseLocalizedStr() (secs2.Item, error) {
 }
 
 func (p *Parser) parseBoolean(size int) (secs2.Item, error) {
-	items := make([]bool, 0, size)
+	items := make([]bool, 0, p.capHint(size))
 	start := p.pos
 	values := p.getItemValueStrings()
 
@@ -692,7 +692,7 @@ func (p *Parser) parseBoolean(size int) (secs2.Item, error) {
 }
 
 func (p *Parser) parseBinary(size int) (secs2.Item, error) {
-	items := make([]byte, 0, size)
+	items := make([]byte, 0, p.capHint(size))
 	start := p.pos
 	values := p.getItemValueStrings()
 
@@ -713,7 +713,7 @@ func (p *Parser) parseBinary(size int) (secs2.Item, error) {
 }
 
 func (p *Parser) parseFloat(byteSize int, size int) (secs2.Item, error) {
-	items := make([]float64, 0, size)
+	items := make([]float64, 0, p.capHint(size))
 	start := p.pos
 	values := p.getItemValueStrings()
 
@@ -734,7 +734,7 @@ func (p *Parser) parseFloat(byteSize int, size int) (secs2.Item, error) {
 }
 
 func (p *Parser) parseInt(byteSize int, size int) (secs2.Item, error) {
-	items := make([]int64, 0, size)
+	items := make([]int64, 0, p.capHint(size))
 	start := p.pos
 	values := p.getItemValueStrings()
 
@@ -755,7 +755,7 @@ func (p *Parser) parseInt(byteSize int, size int) (secs2.Item, error) {
 }
 
 func (p *Parser) parseUint(byteSize int, size int) (secs2.Item, error) {
-	items := make([]uint64, 0, size)
+	items := make([]uint64, 0, p.capHint(size))
 	start := p.pos
 	values := p.getItemValueStrings()
 
@@ -773,6 +773,18 @@ func (p *Parser) parseUint(byteSize int, size int) (secs2.Item, error) {
 	}
 
 	return secs2.NewUintItem(byteSize, items), nil
+}
+
+// capHint bounds a capacity hint taken from an item's [size] annotation by the number of input
+// bytes still unread. The annotation is untrusted text (up to 2^31-1) and every element or child
+// needs at least one more input byte, so a larger pre-allocation can never be used: without the
+// bound `<L[2147483647]>` made the parser request tens of gigabytes for a 22-byte input.
+func (p *Parser) capHint(size int) int {
+	if size > len(p.data) {
+		return len(p.data)
+	}
+
+	return size
 }
 
 func (p *Parser) getItemValueStrings() []string {
